@@ -30,13 +30,30 @@ func passRand(bw *Built, modDir string) error {
 				return err
 			}
 			out := src
-			out = bytes.ReplaceAll(out, []byte("rand.Intn("), []byte("simrt.MockIntn("))
-			out = bytes.ReplaceAll(out, []byte("cryptosimrt.MockIntn("), []byte("cryptorand.Intn("))
-			out = bytes.ReplaceAll(out, []byte("rand.Seed("), []byte("simrt.MockSeed("))
+			// package-level draws of math/rand (v1 Intn, v2 IntN); a mock that owns a *rand.Rand
+			// keeps it (its seed comes from the seamed clock)
+			out = bytes.ReplaceAll(out, []byte(" rand.Intn("), []byte(" simrt.MockIntn("))
+			out = bytes.ReplaceAll(out, []byte("[rand.Intn("), []byte("[simrt.MockIntn("))
+			out = bytes.ReplaceAll(out, []byte("(rand.Intn("), []byte("(simrt.MockIntn("))
+			out = bytes.ReplaceAll(out, []byte(" rand.IntN("), []byte(" simrt.MockIntn("))
+			out = bytes.ReplaceAll(out, []byte("[rand.IntN("), []byte("[simrt.MockIntn("))
+			out = bytes.ReplaceAll(out, []byte("(rand.IntN("), []byte("(simrt.MockIntn("))
+			out = bytes.ReplaceAll(out, []byte("\trand.Seed("), []byte("\tsimrt.MockSeed("))
 			out = bytes.ReplaceAll(out, []byte("cryptorand.Read("), []byte("simrt.MockCryptoRead("))
 			out = bytes.ReplaceAll(out, []byte("time.Now()"), []byte("simrt.MockNow()"))
 			out = bytes.Replace(out, []byte("import ("), []byte("import (\n\tsimrt \"verif/simrt\"\n"), 1)
-			out = append(out, []byte("\n\nvar _ = rand.Intn\nvar _ = cryptorand.Read\nvar _ = time.Now\nvar _ = simrt.MockIntn\n")...)
+			// keep the imports the replaced calls were the only users of
+			keep := "\n\nvar _ = simrt.MockIntn\n"
+			if bytes.Contains(src, []byte("\"math/rand\"")) || bytes.Contains(src, []byte("\"math/rand/v2\"")) {
+				keep += "var _ = rand.Int\n" // exists in math/rand and in math/rand/v2
+			}
+			if bytes.Contains(src, []byte("cryptorand \"crypto/rand\"")) {
+				keep += "var _ = cryptorand.Read\n"
+			}
+			if bytes.Contains(src, []byte("\"time\"")) {
+				keep += "var _ = time.Now\n"
+			}
+			out = append(out, []byte(keep)...)
 			if err := os.WriteFile(f, out, 0o644); err != nil {
 				return err
 			}
